@@ -208,6 +208,7 @@ func (t *fakeTreeManager) MarkTreeDeleted(ctx context.Context, spaceId, treeId s
 	return nil
 }
 func (t *fakeTreeManager) DeleteTree(ctx context.Context, spaceId, treeId string) error {
+	defer t.done(treeId) // whatever the outcome: the first id of the pass has been handled
 	tr, err := t.w.getTree(ctx, treeId)
 	if err != nil {
 		return err
@@ -216,7 +217,6 @@ func (t *fakeTreeManager) DeleteTree(ctx context.Context, spaceId, treeId string
 		return err
 	}
 	delete(t.w.live, treeId)
-	t.done(treeId)
 	return nil
 }
 
